@@ -876,7 +876,9 @@ func runChain(it planItem, emit func(event) error) error {
 		// specification's selections are undefined without an active validator (assert len(indices) > 0,
 		// i % 0); such states are not recorded and the chain ends here
 		cur := slot / spe
-		if ev.Ev == "State" && (len(activeAt(ev.Vals, cur)) == 0 || len(activeAt(ev.Vals, cur+1)) == 0) {
+		// (cur+2 as well: the coming epoch transition / upgrade computes the shuffling and sync committee of cur+2)
+		if ev.Ev == "State" && (len(activeAt(ev.Vals, cur)) == 0 || len(activeAt(ev.Vals, cur+1)) == 0 ||
+			len(activeAt(ev.Vals, cur+2)) == 0) {
 			dead = true
 			return nil
 		}
